@@ -220,7 +220,12 @@ func SlashN(d *big.Int, f *big.Rat, n int) (*big.Int, *big.Int) {
 // with a required object "header" and, if present, an object "body".
 func outputWellFormed(out string) bool {
 	var v interface{}
-	if err := json.Unmarshal([]byte(out), &v); err != nil {
+	dec := json.NewDecoder(strings.NewReader(out))
+	dec.UseNumber() // number literals of any magnitude are numbers
+	if err := dec.Decode(&v); err != nil {
+		return false
+	}
+	if dec.More() {
 		return false
 	}
 	obj, ok := v.(map[string]interface{})
